@@ -964,6 +964,11 @@ def native_module(interp, name):
         make._vf_pairs = True
         return make
 
+    if name in ('sphinx', 'sphinx.ext', 'sphinx.ext.autodoc'):
+        class FunctionDocumenter:
+            _vf_native = True
+        ad = NMod('sphinx.ext.autodoc', FunctionDocumenter=FunctionDocumenter, bool_option=lambda x: True)
+        return ad if name.endswith('autodoc') else NMod(name, autodoc=ad, ext=NMod('sphinx.ext', autodoc=ad))
     if name == 'contextlib':
         return NMod('contextlib', contextmanager=contextmanager)
     if name == 'itertools':
